@@ -149,7 +149,11 @@ def erf_case(ctx, PL, rng, name, tier):
         args["cheb_samples"] = n + 1
     elif mode < 0.4:
         args["cheb_samples"] = n + 2
-    elif mode < 0.5 and n <= 19:
+    elif mode < 0.6:
+        # any node count above the degree, odd AND even (an odd count has a node at x = 0 without a mirror partner)
+        args["cheb_samples"] = n + 3 + int(rng.integers(0, max(4, n)))
+        ctx.count("cheb_samples:free:" + ("odd" if args["cheb_samples"] % 2 else "even"))
+    elif mode < 0.7 and n <= 19:
         args.pop("cheb_samples", None)            # library default (20)
     N = int(args.get("cheb_samples", 20))
     th = math.pi * (2 * np.arange(N) + 1) / (2 * N)
